@@ -75,6 +75,8 @@ def from_dump_texpr(t, defined, aliases):
         return ('rep', t[1], 0, int(t[2]), rec(t[3]))
     if h == "repmax" and len(t) == 5:
         return ('rep', t[1], int(t[2]), int(t[3]), rec(t[4]))
+    if h == "repminmax":
+        return ('rep', t[1], int(t[2]), int(t[3]), rec(t[4]))
     if h == "rule":
         name, k = t[1], t[2]
         if name in defined:
